@@ -317,6 +317,10 @@ def run(ck):
                        'field, tag, variable, transform) removed - the statement of C08 itself']
     # 1. model: ErrorIsAbsence on the engine universe (both modes) and the ill-typed expression universe
     engine_common.run_universe(ck, [('rich2', 'MC_Engine_rich.cfg')], 'judge_c08')
+    # code -> spec: random files with failing expressions in every position, validated by Trace_Engine (a rule that cannot be
+    # evaluated on its own must be absent from the whole-file result)
+    from props import engine_tracecheck
+    engine_tracecheck.run(ck, 'c08', 1600 if quick else 16000)
     tmp = tempfile.mkdtemp(prefix='c08_')
     try:
         dump = os.path.join(tmp, 'ill.dump')
